@@ -89,7 +89,7 @@ Fixpoint strip_prefix (p s : bytes) : option bytes :=
 Fixpoint cut_aux (sep : N) (s acc : bytes) : option (bytes * bytes) :=
   match s with
   | [] => None
-  | c :: t => if c =? sep then Some (rev acc, t) else cut_aux sep t (c :: acc)
+  | c :: t => if c =? sep then Some (frev acc, t) else cut_aux sep t (c :: acc)
   end.
 (** split at the first separator *)
 Definition cut (sep : N) (s : bytes) : option (bytes * bytes) := cut_aux sep s [].
@@ -136,11 +136,11 @@ Definition read_s (tok : bytes) : option (option N) :=
 Definition read_t (tok : bytes) : option (N * tunit) :=
   match tok with
   | 84 :: r =>
-    match rev r with
+    match frev r with
     | u :: nrev =>
       let un := if u =? 83 then Some USec else if u =? 77 then Some UMin else if u =? 72 then Some UHour else None in
       match un with
-      | Some un => match read_numeral (rev nrev) with
+      | Some un => match read_numeral (frev nrev) with
                    | Some n => if n =? 0 then None else Some (n, un)
                    | None => None
                    end
